@@ -24,6 +24,9 @@ pub struct Flow {
     pub a_to_b: Vec<Vec<u8>>,
     /// chunks B sends to A on this flow
     pub b_to_a: Vec<Vec<u8>>,
+    /// B starts receiving only after A has enqueued all its chunks (a lagging
+    /// consumer: fills the 100-slot agent queue and everything behind it)
+    pub lag_receiver: bool,
 }
 
 #[derive(Clone, Debug)]
@@ -62,10 +65,26 @@ async fn send_all(ch: &mut AgentChannel, send: Vec<Vec<u8>>, obs: &Rc<RefCell<Ob
 
 /// Scripted agent: sends its chunks (at once, or after having received what it
 /// expects), then keeps listening: anything further is a duplicate or a leak.
-async fn agent_body(mut ch: AgentChannel, send: Vec<Vec<u8>>, expect: usize, rid: usize, obs: Rc<RefCell<Obs>>, send_first: bool) {
+async fn agent_body(
+    mut ch: AgentChannel,
+    send: Vec<Vec<u8>>,
+    expect: usize,
+    rid: usize,
+    obs: Rc<RefCell<Obs>>,
+    send_first: bool,
+    done_tx: Option<tokio::sync::oneshot::Sender<()>>,
+    wait_rx: Option<tokio::sync::oneshot::Receiver<()>>,
+) {
     let mut pending = Some(send);
     if send_first {
         send_all(&mut ch, pending.take().unwrap(), &obs).await;
+        if let Some(tx) = done_tx {
+            let _ = tx.send(());
+        }
+    }
+    if let Some(rx) = wait_rx {
+        // blocking wait (not a spin loop): the peer signals when it is done sending
+        let _ = rx.await;
     }
     let mut got = 0usize;
     loop {
@@ -96,7 +115,8 @@ pub fn build(sc: &Scenario) -> (Tasks, Rc<RefCell<Obs>>) {
     let mut plex_b = Plexer::new(Bearer::Mem(pb));
     let obs = Rc::new(RefCell::new(Obs::default()));
     let mut tasks = Tasks::new();
-    let mut agents: Vec<(String, AgentChannel, Vec<Vec<u8>>, usize, usize, bool)> = vec![];
+    #[allow(clippy::type_complexity)]
+    let mut agents: Vec<(String, AgentChannel, Vec<Vec<u8>>, usize, usize, bool, Option<tokio::sync::oneshot::Sender<()>>, Option<tokio::sync::oneshot::Receiver<()>>)> = vec![];
     for (i, f) in sc.flows.iter().enumerate() {
         let (cha, chb) = if f.a_is_client {
             (plex_a.subscribe_client(f.proto), plex_b.subscribe_server(f.proto))
@@ -104,8 +124,14 @@ pub fn build(sc: &Scenario) -> (Tasks, Rc<RefCell<Obs>>) {
             (plex_a.subscribe_server(f.proto), plex_b.subscribe_client(f.proto))
         };
         // receiver ids: 2*i = A side of flow i, 2*i+1 = B side
-        agents.push((format!("A{i}"), cha, f.a_to_b.clone(), f.b_to_a.len(), 2 * i, true));
-        agents.push((format!("B{i}"), chb, f.b_to_a.clone(), f.a_to_b.len(), 2 * i + 1, f.a_to_b.is_empty()));
+        let (tx, rx) = if f.lag_receiver {
+            let (t, r) = tokio::sync::oneshot::channel();
+            (Some(t), Some(r))
+        } else {
+            (None, None)
+        };
+        agents.push((format!("A{i}"), cha, f.a_to_b.clone(), f.b_to_a.len(), 2 * i, true, tx, None));
+        agents.push((format!("B{i}"), chb, f.b_to_a.clone(), f.a_to_b.len(), 2 * i + 1, f.a_to_b.is_empty(), None, rx));
     }
     obs.borrow_mut().received = vec![vec![]; agents.len()];
     let (mut da, mut ma) = plex_a.into_parts();
@@ -135,8 +161,8 @@ pub fn build(sc: &Scenario) -> (Tasks, Rc<RefCell<Obs>>) {
             o.borrow_mut().errors.push(format!("demuxA: {e}"));
         }
     });
-    for (name, ch, send, expect, rid, send_first) in agents {
-        tasks.spawn(&name, agent_body(ch, send, expect, rid, obs.clone(), send_first));
+    for (name, ch, send, expect, rid, send_first, tx, rx) in agents {
+        tasks.spawn(&name, agent_body(ch, send, expect, rid, obs.clone(), send_first, tx, rx));
     }
     (tasks, obs)
 }
@@ -160,8 +186,8 @@ pub fn scenarios(thorough: bool) -> Vec<Scenario> {
             name: "S1-two-protocols-one-direction",
             pipe,
             flows: vec![
-                Flow { proto: 2, a_is_client: true, a_to_b: vec![chunk(0, 0, 0, 7), chunk(0, 0, 1, 0)], b_to_a: vec![] },
-                Flow { proto: 3, a_is_client: true, a_to_b: vec![chunk(1, 0, 0, 9)], b_to_a: vec![] },
+                Flow { proto: 2, a_is_client: true, a_to_b: vec![chunk(0, 0, 0, 7), chunk(0, 0, 1, 0)], b_to_a: vec![], lag_receiver: false },
+                Flow { proto: 3, a_is_client: true, a_to_b: vec![chunk(1, 0, 0, 9)], b_to_a: vec![], lag_receiver: false },
             ],
         });
         // S2: both directions on one protocol, plus a second protocol the other way
@@ -169,8 +195,8 @@ pub fn scenarios(thorough: bool) -> Vec<Scenario> {
             name: "S2-both-directions",
             pipe,
             flows: vec![
-                Flow { proto: 2, a_is_client: true, a_to_b: vec![chunk(0, 0, 0, 8), chunk(0, 0, 1, 1)], b_to_a: vec![chunk(0, 1, 0, 2)] },
-                Flow { proto: 5, a_is_client: false, a_to_b: vec![], b_to_a: vec![chunk(1, 1, 0, 9)] },
+                Flow { proto: 2, a_is_client: true, a_to_b: vec![chunk(0, 0, 0, 8), chunk(0, 0, 1, 1)], b_to_a: vec![chunk(0, 1, 0, 2)], lag_receiver: false },
+                Flow { proto: 5, a_is_client: false, a_to_b: vec![], b_to_a: vec![chunk(1, 1, 0, 9)], lag_receiver: false },
             ],
         });
         // S3: the SAME protocol number as client and as server on both sides
@@ -178,8 +204,8 @@ pub fn scenarios(thorough: bool) -> Vec<Scenario> {
             name: "S3-same-protocol-both-roles",
             pipe,
             flows: vec![
-                Flow { proto: 7, a_is_client: true, a_to_b: vec![chunk(0, 0, 0, 3), chunk(0, 0, 1, 8)], b_to_a: vec![] },
-                Flow { proto: 7, a_is_client: false, a_to_b: vec![chunk(1, 0, 0, 3)], b_to_a: vec![] },
+                Flow { proto: 7, a_is_client: true, a_to_b: vec![chunk(0, 0, 0, 3), chunk(0, 0, 1, 8)], b_to_a: vec![], lag_receiver: false },
+                Flow { proto: 7, a_is_client: false, a_to_b: vec![chunk(1, 0, 0, 3)], b_to_a: vec![], lag_receiver: false },
             ],
         });
     }
@@ -188,8 +214,18 @@ pub fn scenarios(thorough: bool) -> Vec<Scenario> {
         name: "S4-max-size-chunk",
         pipe: 4096,
         flows: vec![
-            Flow { proto: 2, a_is_client: true, a_to_b: vec![chunk(0, 0, 0, 65535), chunk(0, 0, 1, 2)], b_to_a: vec![] },
-            Flow { proto: 3, a_is_client: true, a_to_b: vec![chunk(1, 0, 0, 5)], b_to_a: vec![chunk(1, 1, 0, 4)] },
+            Flow { proto: 2, a_is_client: true, a_to_b: vec![chunk(0, 0, 0, 65535), chunk(0, 0, 1, 2)], b_to_a: vec![], lag_receiver: false },
+            Flow { proto: 3, a_is_client: true, a_to_b: vec![chunk(1, 0, 0, 5)], b_to_a: vec![chunk(1, 1, 0, 4)], lag_receiver: false },
+        ],
+    });
+    // S6: a consumer that lags behind by more than the 100-slot agent queue (the
+    // demuxer has to hold back), next to a small flow on another protocol
+    v.push(Scenario {
+        name: "S6-lagging-consumer-over-queue-capacity",
+        pipe: 4096,
+        flows: vec![
+            Flow { proto: 2, a_is_client: true, a_to_b: (0..104u8).map(|i| chunk(0, 0, i, 2)).collect(), b_to_a: vec![], lag_receiver: true },
+            Flow { proto: 3, a_is_client: true, a_to_b: vec![chunk(1, 0, 0, 5)], b_to_a: vec![chunk(1, 1, 0, 4)], lag_receiver: false },
         ],
     });
     if thorough {
@@ -198,9 +234,9 @@ pub fn scenarios(thorough: bool) -> Vec<Scenario> {
             name: "S5-six-agents",
             pipe: 8,
             flows: vec![
-                Flow { proto: 2, a_is_client: true, a_to_b: vec![chunk(0, 0, 0, 2), chunk(0, 0, 1, 9)], b_to_a: vec![] },
-                Flow { proto: 3, a_is_client: false, a_to_b: vec![], b_to_a: vec![chunk(1, 1, 0, 8), chunk(1, 1, 1, 0)] },
-                Flow { proto: 2, a_is_client: false, a_to_b: vec![chunk(2, 0, 0, 7)], b_to_a: vec![] },
+                Flow { proto: 2, a_is_client: true, a_to_b: vec![chunk(0, 0, 0, 2), chunk(0, 0, 1, 9)], b_to_a: vec![], lag_receiver: false },
+                Flow { proto: 3, a_is_client: false, a_to_b: vec![], b_to_a: vec![chunk(1, 1, 0, 8), chunk(1, 1, 1, 0)], lag_receiver: false },
+                Flow { proto: 2, a_is_client: false, a_to_b: vec![chunk(2, 0, 0, 7)], b_to_a: vec![], lag_receiver: false },
             ],
         });
     }
@@ -288,7 +324,7 @@ pub fn run_part(ctx: &Ctx, bound_max: usize, max_schedules: u64) -> PartResult {
             let mut capped = false;
             let mut per_bound = vec![];
             // S4 moves 64 KiB through a 4 KiB pipe: many forced points, keep its bound lower
-            let bmax = if sc.name.starts_with("S4") { bound_max.min(if ctx.thorough { 2 } else { 1 }) } else { bound_max };
+            let bmax = if sc.name.starts_with("S4") || sc.name.starts_with("S6") { bound_max.min(if ctx.thorough { 2 } else { 1 }) } else { bound_max };
             // iterate the bound (0,1,2,...): the first counterexample has the fewest deviations
             let mut prev = 0u64;
             for bound in 0..=bmax {
